@@ -126,16 +126,29 @@ func c19run(c *engine.Ctx, ops []c19op, hist []int, record bool) (string, bool) 
 		viol("table", fmt.Sprintf("%d names but %d numbers in the table", len(tab), len(rev)))
 	}
 	// canonical state: user-made entries of the table + per-member counters (relative to the base)
-	var ent []string
-	for name, num := range tab {
-		if _, ok := initialNames[name]; !ok {
-			ent = append(ent, fmt.Sprintf("%s=%d", name, num))
+	// (every member's view of the table is part of the state: they must be one table, but the key must not assume it)
+	key := ""
+	for mi, e := range fam {
+		mtab, mrev := e.VerifSymtab()
+		var ent []string
+		for name, num := range mtab {
+			if _, ok := initialNames[name]; !ok {
+				ent = append(ent, fmt.Sprintf("%s=%d", name, num))
+			}
 		}
-	}
-	sort.Strings(ent)
-	key := strings.Join(ent, ",")
-	for _, e := range fam {
-		key += fmt.Sprintf("|%d", e.VerifNextSymbol())
+		sort.Strings(ent)
+		key += fmt.Sprintf("|m%d:%s;rev=%d;next=%d;shared=%v", mi, strings.Join(ent, ","), len(mrev)-len(initialNames), e.VerifNextSymbol(), e.VerifSharesSymtab(fam[0]))
+		if mi > 0 {
+			for name, num := range tab {
+				if mtab[name] != num {
+					viol("shared-table", fmt.Sprintf("member %d does not see %q=%d of member 0's table", mi, name, num))
+					break
+				}
+			}
+			if len(mtab) != len(tab) {
+				viol("shared-table", fmt.Sprintf("member %d has %d names, member 0 has %d", mi, len(mtab), len(tab)))
+			}
+		}
 	}
 	// which symbols were handed out as generated matters for the future of the invariant
 	var gens []string
